@@ -239,6 +239,32 @@ func expandGuard(g Guard) []Guard {
 	if u, ok := g.Cond.(*ssa.UnOp); ok && u.Op == token.NOT {
 		out = append(out, expandGuard(Guard{u.X, !g.Val, g.If})...)
 	}
+	// the value form of && / || (`switch { case a && b: }`, `ok := a && b; if ok`): φ(false…, b) == true means the
+	// evaluation went through b's block (so a held) and b held; dually φ(true…, b) == false for ||
+	if ph, ok := g.Cond.(*ssa.Phi); ok {
+		if bt, isB := ph.Type().Underlying().(*types.Basic); isB && bt.Kind() == types.Bool {
+			var last ssa.Value
+			lastIdx := -1
+			shortVal := !g.Val // the constant the short-circuit edges carry
+			okShape := true
+			for i, e := range ph.Edges {
+				if k, isK := e.(*ssa.Const); isK && k.Value != nil && k.Value.Kind() == constant.Bool && constant.BoolVal(k.Value) == shortVal {
+					continue
+				}
+				if last != nil {
+					okShape = false
+				}
+				last, lastIdx = e, i
+			}
+			if okShape && last != nil && lastIdx < len(ph.Block().Preds) {
+				out = append(out, expandGuard(Guard{last, g.Val, g.If})...)
+				pred := ph.Block().Preds[lastIdx]
+				if len(pred.Instrs) > 0 {
+					out = append(out, Guards(pred.Instrs[len(pred.Instrs)-1])...)
+				}
+			}
+		}
+	}
 	return out
 }
 
